@@ -45,9 +45,18 @@ def scenario(rng):
         nd = rng.choice([1, 2, 2, 3]) if kind == "rechunk" else rng.choice([1, 2])
         shape = tuple(rng.randint(2, 14) for _ in range(nd))
         src = tuple(rng.randint(1, n) for n in shape)
+        transposing = kind == "rechunk" and rng.random() < 0.4
+        if transposing:
+            # skinny-to-skinny across two axes under a budget that forces a multi-stage plan (intermediate chunkings)
+            shape = (rng.randint(12, 40), rng.randint(20, 64))
+            src = (rng.choice([1, 1, 2, 3]), rng.randint(shape[1] // 2, shape[1]))
+            if rng.random() < 0.5:
+                shape, src = shape[::-1], src[::-1]
         data = np.arange(int(np.prod(shape)), dtype="int64").reshape(shape)
         if kind == "rechunk":
             tgt = tuple(rng.randint(1, n) for n in shape)
+            if transposing:
+                tgt = tuple(rng.choice([1, 1, 2, 3]) if c > 3 else rng.randint(max(1, n // 2), n) for n, c in zip(shape, src))
             need = 8 * max(int(np.prod(src)), int(np.prod(tgt)))
             allowed = need * rng.choice([5, 5, 6, 8, 20]) + rng.choice([0, 8, 64])
             irregular = rng.random() < 0.5
@@ -55,7 +64,7 @@ def scenario(rng):
             spec = cubed.Spec(allowed_mem=allowed, reserved_mem=0, intermediate_store=mk())
             a = xp.asarray(data, chunks=src, spec=spec)
             outs = [a.rechunk(tgt, min_mem=min_mem, allow_irregular=irregular)]
-            desc.update(shape=shape, src=src, tgt=tgt, allowed_mem=allowed, allow_irregular=irregular, min_mem=min_mem)
+            desc.update(shape=shape, src=src, tgt=tgt, allowed_mem=allowed, allow_irregular=irregular, min_mem=min_mem, transposing=transposing)
         else:
             spec = cubed.Spec(allowed_mem="500MB", intermediate_store=mk())
             a = xp.asarray(data, chunks=src, spec=spec) + 0
